@@ -4,7 +4,7 @@ from __future__ import annotations
 import json
 from concurrent.futures import ThreadPoolExecutor
 
-from .. import env, impl, producer, report, terms, tlc
+from .. import env, impl, producer, report, terms, tlc, wire
 
 
 def _safe(fn, *a, **kw):
@@ -207,6 +207,38 @@ def main(tier: str) -> int:
                                               [producer.den_item(d) for d in den2], frames2, data2, True)
             if len(samples) < 3 and den:
                 samples.append({"config": name, "rows": beh["rows"][:6], "denotes_first": beh["den"][:1]})
+    # the Jelly files committed with the repository (written by whatever tool its authors used): Tier 1 must accept them, and pyjelly must
+    # read exactly what Tier 1 says they denote
+    import subprocess  # noqa: PLC0415
+    from .. import tlc as _tlc  # noqa: PLC0415
+
+    shipped = subprocess.run(["git", "-C", env.REPO, "ls-files", "*.jelly"], capture_output=True, text=True).stdout.split()
+    ftraces, fmeta = [], []
+    for rel in shipped:
+        data = subprocess.run(["git", "-C", env.REPO, "show", "HEAD:" + rel], capture_output=True, check=True).stdout    # the committed bytes (tests rewrite some)
+        try:
+            frames = wire.dec_stream(data, delimited=True)
+        except wire.WireError:
+            continue                                       # not a delimited Jelly stream (none today)
+        try:
+            gen = impl.parse("generic", data, "flat")
+            rdf = impl.parse("rdflib", data, "flat")
+        except Exception as ex:  # noqa: BLE001
+            run.violation({"clause": "shipped-file-unreadable", "file": rel}, f"{type(ex).__name__}: {str(ex)[:100]}", {"file": rel})
+            continue
+        streams += 1
+        parses += 2
+        if [rdf_norm(x) for x in rdf] != [terms.norm_item(x) for x in gen]:
+            run.violation({"clause": "integrations-differ", "file": rel}, "the two integrations read a file shipped with the repository differently", {"file": rel})
+        fmeta.append(rel)
+        ftraces.append({"id": len(fmeta) - 1, "rows": terms.jrows_of_frames(frames), "mode": "seq", "exp": [terms.jitem(terms.norm_item(x)) for x in gen]})
+    if ftraces:
+        fv = _tlc.judge(ftraces)
+        fv.pop("__stats__")
+        for i_, v_ in fv.items():
+            if v_["verdict"] != "ok":
+                run.violation({"clause": "shipped-file:" + v_["verdict"], "file": fmeta[i_]},
+                              f"a Jelly file shipped with the repository: Tier-1 verdict {v_['verdict']} at row {v_['at']} (denotation vs. what pyjelly reads)", {"file": fmeta[i_]})
     return run.finish({
         "states": gen_states + gstates, "transitions": gen_states + gtrans, "traces_validated_against_impl": streams + gtrans, "samples": samples, "exhaustive": False,
         "streams": streams, "parses": parses, "reader_state_graph": graph_stats,
